@@ -229,6 +229,71 @@ impl Query {
     }
 }
 
+// ------------------------------------------------------------------ ORDER BY over GROUP BY (Model/SortGroup.v)
+/// SELECT g.., COUNT(*) AS n FROM t [WHERE id > w] GROUP BY g.. ORDER BY <output positions> [LIMIT] [OFFSET]
+#[derive(Clone, Debug, PartialEq)]
+struct GQuery { cols: Vec<usize>, wher: Option<i64>, keys: Vec<(usize, bool)>, limit: Option<i64>, offset: Option<i64> }
+
+impl GQuery {
+    fn key_name(&self, pos: usize) -> String { if pos < self.cols.len() { col_name(self.cols[pos]) } else { "n".into() } }
+    fn sql(&self) -> String {
+        let g: Vec<String> = self.cols.iter().map(|c| col_name(*c)).collect();
+        let mut s = format!("SELECT {}, COUNT(*) AS n FROM t", g.join(", "));
+        if let Some(k) = self.wher { s.push_str(&format!(" WHERE id > {}", if k < 0 { format!("({})", k) } else { k.to_string() })); }
+        s.push_str(&format!(" GROUP BY {}", g.join(", ")));
+        let ks: Vec<String> = self.keys.iter().map(|(p, asc)| format!("{}{}", self.key_name(*p), if *asc { "" } else { " DESC" })).collect();
+        s.push_str(&format!(" ORDER BY {}", ks.join(", ")));
+        if let Some(l) = self.limit { s.push_str(&format!(" LIMIT {}", l)); }
+        if let Some(o) = self.offset { s.push_str(&format!(" OFFSET {}", o)); }
+        s
+    }
+    fn coq(&self) -> String {
+        let keys: Vec<String> = self.keys.iter().map(|(p, asc)| format!("({}%nat, {})", p, cbool(*asc))).collect();
+        format!("(mkG [{}]%nat {} [{}] {} {})", self.cols.iter().map(|c| c.to_string()).collect::<Vec<_>>().join(";"),
+                opt_coq(&self.wher), keys.join("; "), opt_coq(&self.limit), opt_coq(&self.offset))
+    }
+    /// cols|where|keys|limit|offset     e.g. 1,3|-|0:a;2:d|3|-
+    fn line(&self) -> String {
+        format!("{}|{}|{}|{}|{}", self.cols.iter().map(|c| c.to_string()).collect::<Vec<_>>().join(","), opt_line(&self.wher),
+                self.keys.iter().map(|(p, asc)| format!("{}:{}", p, if *asc { 'a' } else { 'd' })).collect::<Vec<_>>().join(";"),
+                opt_line(&self.limit), opt_line(&self.offset))
+    }
+    fn from_line(s: &str) -> Option<GQuery> {
+        let p: Vec<&str> = s.split('|').collect();
+        if p.len() != 5 { return None; }
+        let cols: Option<Vec<usize>> = p[0].split(',').map(|c| c.parse().ok()).collect();
+        let mut keys = vec![];
+        for k in p[2].split(';') {
+            let (pos, d) = k.split_once(':')?;
+            keys.push((pos.parse().ok()?, match d { "a" => true, "d" => false, _ => return None }));
+        }
+        Some(GQuery { cols: cols?, wher: opt_parse(p[1])?, keys, limit: opt_parse(p[3])?, offset: opt_parse(p[4])? })
+    }
+    fn well_formed(&self, ncols: usize) -> bool {
+        let k = self.cols.len();
+        k > 0 && self.cols.iter().all(|c| *c < ncols) && self.keys.iter().all(|(p, _)| *p <= k)
+            && (0..k).all(|i| self.keys.iter().any(|(p, _)| *p == i))
+            && self.limit.map_or(true, |l| l >= 0) && self.offset.map_or(true, |o| o >= 0)
+    }
+    /// the groups in order of first occurrence, as output rows [g.., n] (group_rows of Model/SortGroup.v)
+    fn group_rows(&self, t: &Table) -> Vec<Vec<Val>> {
+        let mut acc: Vec<(Vec<Val>, i64)> = vec![];
+        for r in &t.rows {
+            if let Some(w) = self.wher { match r.get(0) { Some(Val::Int(i)) if *i > w => {}, _ => continue } }
+            let g: Vec<Val> = self.cols.iter().map(|c| r[*c].clone()).collect();
+            match acc.iter_mut().find(|(h, _)| *h == g) { Some(e) => e.1 += 1, None => acc.push((g, 1)) }
+        }
+        acc.into_iter().map(|(mut g, c)| { g.push(Val::Int(c)); g }).collect()
+    }
+    fn elts(&self, t: &Table) -> Vec<Elt> {
+        self.group_rows(t).into_iter().map(|r| (self.keys.iter().map(|(p, _)| r[*p].clone()).collect(), r)).collect()
+    }
+    /// the same window check through the generic checker: a Query that only carries dirs / window
+    fn as_window(&self) -> Query {
+        Query { distinct: false, sel: Sel::Star, wher: None, keys: self.keys.iter().map(|(p, asc)| (Key::Col(*p, false), *asc)).collect(), limit: self.limit, offset: self.offset }
+    }
+}
+
 // ------------------------------------------------------------------ reference check (Rust port of Model/SortSpec.v; search / statistics only)
 fn vrank(v: &Val) -> i32 { match v { Val::Null => 0, Val::Int(_) => 1, Val::Float(_) => 2, Val::Text(_) => 3, Val::Bool(_) => 4 } }
 fn sort_cmp(a: &Val, b: &Val) -> Ordering {
@@ -464,9 +529,10 @@ impl Sut {
     fn ensure(&mut self, t: &Table) -> Result<(), String> {
         if self.db.is_some() && self.loaded.as_ref() == Some(t) { Ok(()) } else { self.load(t) }
     }
-    fn observe(&mut self, t: &Table, q: &Query) -> QOut {
+    fn observe(&mut self, t: &Table, q: &Query) -> QOut { self.observe_sql(t, &q.sql()) }
+    fn observe_sql(&mut self, t: &Table, sql: &str) -> QOut {
         if let Err(m) = self.ensure(t) { return QOut::Bad(format!("setup: {}", m)); }
-        let sql = q.sql();
+        let sql = sql.to_string();
         let db = self.db.as_ref().expect("db");
         let r = catch(std::panic::AssertUnwindSafe(|| db.query(&sql).map_err(|e| format!("{:#}", e))));
         match r {
@@ -487,6 +553,15 @@ impl Sut {
 // ------------------------------------------------------------------ cases
 /// one line per case:  single cols=<IFT..> rows=<v,v;v,v|-> q=<d|sel|where|keys|limit|offset>
 fn replay_line(t: &Table, q: &Query) -> String { format!("single {} q={}", t.to_line(), q.line()) }
+fn replay_line_g(t: &Table, g: &GQuery) -> String { format!("group {} g={}", t.to_line(), g.line()) }
+fn parse_replay_g(l: &str) -> Option<(Table, GQuery)> {
+    let l = l.split(" #").next().unwrap_or(l).trim();
+    let rest = l.strip_prefix("group ")?;
+    let rest = rest.strip_prefix("cols=")?;
+    let (cols, rest) = rest.split_once(" rows=")?;
+    let (rows, g) = rest.split_once(" g=")?;
+    Some((Table::from_line("t", cols, rows)?, GQuery::from_line(g.trim())?))
+}
 fn parse_replay(l: &str) -> Option<(Table, Query)> {
     let l = l.split(" #").next().unwrap_or(l).trim();
     let rest = l.strip_prefix("single ")?;
@@ -572,6 +647,47 @@ fn emit(w: &mut CaseWriter, sut: &mut Sut, t: &Table, q: &Query, stream: &str) {
     if let QOut::Rows(rows) = &out {
         if defined { if let Some(b) = spec_elts(t, q) { if !result_chk(q, &b, rows) { w.count("oracle:violation(rust port)", 1); } } }
     }
+}
+
+fn emit_group(w: &mut CaseWriter, sut: &mut Sut, t: &Table, g: &GQuery, stream: &str) {
+    let ncols = t.cols.len();
+    if !g.well_formed(ncols) { eprintln!("c15: skipped ill-formed group query {}", g.line()); return; }
+    let same = w.total % SHARD != 0 && sut.emitted.as_ref() == Some(t);
+    let out = sut.observe_sql(t, &g.sql());
+    if let QOut::Bad(m) = &out { eprintln!("c15: unexpected result: {} on {}", m, replay_line_g(t, g)); }
+    let term = if same { format!("GSame {} {}", g.coq(), out.coq()) } else { format!("Group {} {} {} {}", ncols, t.to_coq(), g.coq(), out.coq()) };
+    sut.emitted = Some(t.clone());
+    let b = g.elts(t);
+    let wq = g.as_window();
+    let defined = result_defined(&wq, &b);
+    let o = g.offset.unwrap_or(0) as usize;
+    let work = b.len() >= 2;
+    let _ = o;
+    let kind = format!("{}:group{}{}{}", stream, g.cols.len(), if g.limit.is_some() { "+limit" } else { "" }, if g.offset.is_some() { "+offset" } else { "" });
+    w.push(term, replay_line_g(t, g), defined && work, &kind);
+    w.count(out.bucket(), 1);
+    w.count(if g.limit.is_some() { "path:HashAggregate+TopKExec" } else if g.offset.is_some() { "path:HashAggregate+SortExec+LimitExec" } else { "path:HashAggregate+SortExec" }, 1);
+    if !defined { w.count("spec:no_demand", 1); }
+    if g.keys.iter().any(|(_, asc)| !*asc) { w.count("key:desc", 1); }
+    if g.keys.iter().any(|(p, _)| *p == g.cols.len()) { w.count("key:alias", 1); }
+    if let QOut::Rows(rows) = &out { if defined && !result_chk(&wq, &b, rows) { w.count("oracle:violation(rust port)", 1); } }
+}
+
+fn gen_gquery(rng: &mut Rng, t: &Table) -> Option<GQuery> {
+    let ncols = t.cols.len();
+    let cand: Vec<usize> = (1..ncols).filter(|c| t.cols[*c] != ColTy::Float).collect();
+    if cand.is_empty() { return None; }
+    let mut cols = vec![*rng.pick(&cand)];
+    if cand.len() > 1 && rng.chance(1, 3) { let c = *rng.pick(&cand); if c != cols[0] { cols.push(c); } }
+    let k = cols.len();
+    // every grouping column is a key; the count (position k) before, between or after them, or absent
+    let mut keys: Vec<(usize, bool)> = (0..k).map(|i| (i, rng.chance(3, 5))).collect();
+    if k == 2 && rng.chance(1, 2) { keys.swap(0, 1); }
+    if rng.chance(1, 2) { let at = rng.below(keys.len() as u64 + 1) as usize; keys.insert(at, (k, rng.chance(1, 2))); }
+    let n = t.rows.len() as i64;
+    let pick_n = |rng: &mut Rng| -> i64 { match rng.below(8) { 0 => 0, 1 => 1, 2 => n + 1, 3 => 1000, _ => rng.range(0, n.max(1)) } };
+    let (limit, offset) = match rng.below(10) { 0..=3 => (None, None), 4..=6 => (Some(pick_n(rng)), None), 7..=8 => (Some(pick_n(rng)), Some(pick_n(rng))), _ => (None, Some(pick_n(rng))) };
+    Some(GQuery { cols, wher: if rng.chance(1, 5) { Some(rng.range(-1, n)) } else { None }, keys, limit, offset })
 }
 
 // ------------------------------------------------------------------ generators
@@ -754,6 +870,25 @@ fn structured(w: &mut CaseWriter, sut: &mut Sut, rng: &mut Rng, thorough: bool) 
         emit(w, sut, &t, &Query { distinct: true, sel: sel.clone(), wher: None, keys: vec![], limit: Some(2), offset: None }, "structured");
         emit(w, sut, &t, &Query { distinct: true, sel, wher: None, keys: vec![], limit: None, offset: Some(1) }, "structured");
     }
+    // ORDER BY / LIMIT / OFFSET over GROUP BY: every grouping column is a key, the count anywhere
+    for cols in [vec![1usize], vec![3], vec![3, 1], vec![1, 3]] {
+        let k = cols.len();
+        let mut keysets: Vec<Vec<(usize, bool)>> = vec![];
+        for asc in [true, false] {
+            let base: Vec<(usize, bool)> = (0..k).map(|i| (i, asc)).collect();
+            keysets.push(base.clone());
+            let mut front = vec![(k, !asc)]; front.extend(base.clone()); keysets.push(front);
+            let mut back = base.clone(); back.push((k, asc)); keysets.push(back);
+        }
+        for keys in keysets {
+            for (l, o) in [(None, None), (Some(2), None), (Some(2), Some(1)), (None, Some(2)), (Some(0), None), (Some(50), Some(0))] {
+                for wher in [None, Some(3)] {
+                    if wher.is_some() && !thorough && rng.chance(2, 3) { continue; }
+                    emit_group(w, sut, &t, &GQuery { cols: cols.clone(), wher, keys: keys.clone(), limit: l, offset: o }, "structured");
+                }
+            }
+        }
+    }
     // key forms: not in the select list, qualified, alias, ordinal, expressions, `*`
     let idc1 = Sel::List(vec![(0, false), (1, false)]);
     let forms: Vec<(Sel, Vec<(Key, bool)>)> = vec![
@@ -798,6 +933,7 @@ fn gen(a: &Args) {
     let mut sut = Sut::new();
     if let Some(lines) = a.replay_lines() {
         for l in lines {
+            if let Some((t, g)) = parse_replay_g(&l) { emit_group(&mut w, &mut sut, &t, &g, "replay"); continue; }
             match parse_replay(&l) {
                 Some((t, q)) => emit(&mut w, &mut sut, &t, &q, "replay"),
                 None => eprintln!("c15: cannot parse replay line: {}", l),
@@ -823,6 +959,12 @@ fn gen(a: &Args) {
             let q = gen_query(&mut rng, &t, safe);
             let stream = format!("{}:{}", if safe { "safe" } else { "full" }, match flavour { 0 => "dup", 1 => "small", _ => "wide" });
             emit(&mut w, &mut sut, &t, &q, &stream);
+        }
+        // ORDER BY / LIMIT / OFFSET over GROUP BY on the same table
+        for _ in 0..(if a.thorough() { 6 } else { 3 }) {
+            if let Some(g) = gen_gquery(&mut rng, &t) {
+                emit_group(&mut w, &mut sut, &t, &g, match flavour { 0 => "group:dup", 1 => "group:small", _ => "group:wide" });
+            }
         }
     }
     sut.cleanup();
@@ -854,6 +996,18 @@ fn search(a: &Args) {
                 }
             }
             if tried >= budget { break 'outer; }
+        }
+        for _ in 0..6 {
+            if let Some(g) = gen_gquery(&mut rng, &t) {
+                if !g.well_formed(t.cols.len()) { continue; }
+                tried += 1;
+                let b = g.elts(&t);
+                let wq = g.as_window();
+                if result_defined(&wq, &b) {
+                    let ok = match sut.observe_sql(&t, &g.sql()) { QOut::Rows(rows) => result_chk(&wq, &b, &rows), _ => false };
+                    if !ok && fails.len() < 60 { fails.push(format!("{} #k=0", replay_line_g(&t, &g))); }
+                }
+            }
         }
     }
     sut.cleanup();
